@@ -3,7 +3,7 @@
    OCaml types; nat, positive, N, Z stay the extracted inductives. *)
 From Coq Require Extraction.
 From Coq Require Import ExtrOcamlBasic.
-From Frugal Require Import Bytes Wire Skip Values Desc Spec Routines Encode Decode Checks Tags Bitset Alloc DescMap Conc State Args.
+From Frugal Require Import Bytes Wire Skip Values Desc Spec Routines Encode Decode Checks Tags Bitset Alloc DescMap Conc State Args Unknown.
 From Frugal.gen Require Import Params Tables.
 Extraction Language OCaml.
 Extraction "model.ml"
@@ -16,6 +16,6 @@ Extraction "model.ml"
   decode_object decode_struct
   resolve_fields build_env accepted accepted_with resolve_universe parse_type_top lookup_struct_tag
   bs_run bs_zero span_run span_init dm_run dm_empty map_dispatch_tab list_dispatch_tab
-  size_arg encode_arg decode_arg
+  size_arg encode_arg decode_arg uf_run uf_new
   api_step p_init run_history fresh_outcome
   maxDepthLimit params_ok tables_ok legacy_ok access_ok.
